@@ -86,6 +86,7 @@ func cmdCheck(args []string) int {
 	}
 	defer p.cleanup()
 	defer cleanupQueries()
+	defer saveStrategy()
 	db := loadContracts(p)
 	loadSec := time.Since(t0).Seconds()
 	timeout := 30 * time.Second
